@@ -306,7 +306,9 @@ func (fc *fnCtx) siteAsserts(st *State, name, ordKey string, args []Val) {
 			continue
 		}
 		oname := "call-" + ordKey + "-assert"
-		if nth > 1 {
+		if cs.Assert.Label != "" {
+			oname = oname + "." + cs.Assert.Label
+		} else if nth > 1 {
 			oname = fmt.Sprintf("%s%d", oname, nth)
 		}
 		fc.oblige(st, "call-assert", oname, g, "call-site assertion: "+cs.Assert.Text, token.NoPos, true)
@@ -335,8 +337,12 @@ func (fc *fnCtx) unboundClauses() []string {
 	for _, li := range fc.loopInfo {
 		have[li.ordinal] = true
 	}
-	for k := range c.Loops {
+	for k, ls := range c.Loops {
 		if !have[k] {
+			for _, sc := range append(append([]Clause{}, ls.Steps...), ls.Exits...) {
+				// a step clause is specification, not a proof hint: it must keep binding
+				out = append(out, fmt.Sprintf("%s:%d: `loop %d step/exit` binds to no loop", strings.TrimPrefix(c.File, fc.eng.repo+"/"), sc.Line, k))
+			}
 			// proof hints only: a loop that no longer exists needs no invariant (noted, not an alarm)
 			fc.noteImprecise("`loop %d` clauses of the contract bind to no loop (dropped)", k)
 		}
@@ -643,9 +649,19 @@ func (fc *fnCtx) modLocs(env *SpecEnv, item string) ([]modLoc, error) {
 		if err != nil {
 			return nil, err
 		}
+		if _, isMap := v.Ty.Underlying().(*types.Map); isMap {
+			// m[..]: the entries (domain, values) and the length of map m
+			dn, ds, vn, vs, m := fc.mapHeaps(v.Ty)
+			ks := fc.keySort(m.Key())
+			return []modLoc{
+				{heap: dn, sort: ds, elemSort: "(Array " + ks + " Bool)", ref: v.T},
+				{heap: vn, sort: vs, elemSort: "(Array " + ks + " " + fc.S().SortOf(m.Elem()) + ")", ref: v.T},
+				{heap: "ml", sort: "(Array Int Int)", elemSort: "Int", ref: v.T, ty: types.Typ[types.Int]},
+			}, nil
+		}
 		sl, ok := v.Ty.Underlying().(*types.Slice)
 		if !ok {
-			return nil, fmt.Errorf("modifies %s: not a slice", item)
+			return nil, fmt.Errorf("modifies %s: not a slice or a map", item)
 		}
 		hn, hs := fc.heapElemName(sl.Elem())
 		return []modLoc{{heap: hn, sort: hs, elemSort: "(Array Int " + fc.S().SortOf(sl.Elem()) + ")", ref: "(sl.base " + v.T + ")"}}, nil
@@ -948,6 +964,30 @@ func (fc *fnCtx) execBuiltin(st *State, x *ssa.Call, b *ssa.Builtin) {
 				return fmt.Sprintf("(select (select %s (sl.base %s)) (+ (sl.off %s) %s))", h, src.T, src.T, i)
 			}
 		}
+		if dst.T == arrWindow && dst.Addr != nil {
+			lo, hi := dst.Tup[0].T, dst.Tup[1].T
+			arrT := dst.Addr.typ().Underlying().(*types.Array)
+			win := fmt.Sprintf("(- %s %s)", hi, lo)
+			n := fc.defs.Define("copy.n", "Int", fmt.Sprintf("(ite (<= %s %s) %s %s)", win, srcLen, win, srcLen))
+			oldArr := fc.readLVal(st, dst.Addr)
+			var nv string
+			if arrT.Len() <= 32 {
+				nv = oldArr
+				for i := int64(0); i < arrT.Len(); i++ {
+					is := fmt.Sprintf("%d", i)
+					nv = fmt.Sprintf("(store %s %s (ite (and (<= %s %s) (< %s (+ %s %s))) %s (select %s %s)))", nv, is, lo, is, is, lo, n,
+						srcAt(fmt.Sprintf("(- %s %s)", is, lo)), oldArr, is)
+				}
+				nv = fc.defs.Define("copy.arr", fc.S().SortOf(arrT), nv)
+			} else {
+				nv = fc.defs.Declare("copy.arr", fc.S().SortOf(arrT))
+				fc.assume(st, fmt.Sprintf("(forall ((i Int)) (! (= (select %s i) (ite (and (<= %s i) (< i (+ %s %s))) %s (select %s i))) :pattern ((select %s i))))",
+					nv, lo, lo, n, srcAt(fmt.Sprintf("(- i %s)", lo)), oldArr, nv))
+			}
+			fc.writeLVal(st, dst.Addr, nv)
+			fc.setVal(x, n)
+			return
+		}
 		n := fc.defs.Define("copy.n", "Int", fmt.Sprintf("(ite (<= (sl.len %s) %s) (sl.len %s) %s)", dst.T, srcLen, dst.T, srcLen))
 		row := fc.defs.Declare("copy.row", "(Array Int "+fc.S().SortOf(sl.Elem())+")")
 		oldrow := fmt.Sprintf("(select %s (sl.base %s))", h, dst.T)
@@ -1228,16 +1268,56 @@ func (fc *fnCtx) keySort(k types.Type) string {
 	if isString(k) {
 		return "Int"
 	}
+	if a, ok := k.Underlying().(*types.Array); ok && isString(a.Elem()) && a.Len() <= 16 {
+		return "(Array Int Int)"
+	}
 	return fc.S().SortOf(k)
 }
 
+// keyTerm is the canonical form of a map key: Go compares keys by content, the Str sort by
+// representation, so strings go through strkey (equal exactly on equal contents); arrays of
+// strings are canonicalised element by element.
 func (fc *fnCtx) keyTerm(k Val) string {
-	if k.Ty != nil && isString(k.Ty) {
+	strkey := func() {
 		fc.S().UFun("strkey", []string{"Str"}, "Int")
 		fc.S().Axiom("strkey", "(assert (forall ((a Str) (b Str)) (! (= (= (strkey a) (strkey b)) (streq a b)) :pattern ((strkey a) (strkey b)))))")
+	}
+	if k.Ty != nil && isString(k.Ty) {
+		strkey()
 		return "(strkey " + k.T + ")"
 	}
+	if k.Ty != nil {
+		if a, ok := k.Ty.Underlying().(*types.Array); ok && isString(a.Elem()) && a.Len() <= 16 {
+			strkey()
+			t := "((as const (Array Int Int)) 0)"
+			for i := int64(0); i < a.Len(); i++ {
+				t = fmt.Sprintf("(store %s %d (strkey (select %s %d)))", t, i, k.T, i)
+			}
+			return t
+		} else if typeHasString(k.Ty, 0) {
+			fc.noteImprecise("map key of type %s contains strings compared by representation", k.Ty)
+		}
+	}
 	return k.T
+}
+
+func typeHasString(t types.Type, depth int) bool {
+	if depth > 6 {
+		return false
+	}
+	switch u := t.Underlying().(type) {
+	case *types.Basic:
+		return u.Info()&types.IsString != 0
+	case *types.Array:
+		return typeHasString(u.Elem(), depth+1)
+	case *types.Struct:
+		for i := 0; i < u.NumFields(); i++ {
+			if typeHasString(u.Field(i).Type(), depth+1) {
+				return true
+			}
+		}
+	}
+	return false
 }
 
 func (fc *fnCtx) initMap(st *State, t types.Type, r string) {
@@ -1314,6 +1394,7 @@ func (fc *fnCtx) execMapUpdate(st *State, x *ssa.MapUpdate) {
 		fc.siteAsserts(st, "mapupdate", fmt.Sprintf("mapupdate@%d", ord), []Val{m, k, v})
 	}
 	fc.oblige(st, "nilmap", "", not(eq(m.T, "0")), "assignment to entry in nil map", x.Pos(), false)
+	fc.assume(st, not(eq(m.T, "0"))) // execution continues only if the store did not panic
 	dn, ds, vn, vs, mt := fc.mapHeaps(m.Ty)
 	kt := fc.keyTerm(Val{T: k.T, Ty: mt.Key()})
 	dh := fc.heapGet(st, dn, ds)
